@@ -28,6 +28,11 @@ pub struct Client {
 
 struct ClientInner {
     writer: Mutex<BufWriter<TcpStream>>,
+    /// The same socket, outside the writer mutex. A caller stalled in `write`
+    /// (the peer stopped reading) holds that mutex for as long as the stall
+    /// lasts, and shutting the socket down is what unblocks it, so the response
+    /// loop must not need the mutex to do it.
+    control: TcpStream,
     pending: Mutex<PendingRequests>,
     next_id: AtomicU64,
 }
@@ -66,8 +71,10 @@ impl Client {
         stream.set_nodelay(true).ok();
 
         let reader_stream = stream.try_clone()?;
+        let control = stream.try_clone()?;
         let inner = Arc::new(ClientInner {
             writer: Mutex::new(BufWriter::new(stream)),
+            control,
             pending: Mutex::new(HashMap::new()),
             next_id: AtomicU64::new(1),
         });
@@ -796,13 +803,9 @@ fn fail_all_pending(inner: &std::sync::Weak<ClientInner>, err: RepeError) {
         return;
     };
 
-    {
-        let writer = match inner_ref.writer.lock() {
-            Ok(guard) => guard,
-            Err(poisoned) => poisoned.into_inner(),
-        };
-        let _ = writer.get_ref().shutdown(Shutdown::Both);
-    }
+    // Not through `writer`: a caller stalled in `write` holds that mutex, and the
+    // waiters below must be failed whether or not the peer ever reads again.
+    let _ = inner_ref.control.shutdown(Shutdown::Both);
 
     let waiters = {
         let mut map = match inner_ref.pending.lock() {
